@@ -184,6 +184,65 @@ def _scenario(scn, given, placement, rng, srv, cl, obs):
     return obs
 
 
+def concurrent_refusals(triples, rng):
+    """Several peers are refused by ONE accepting entity at the same moment, each for its own reason (the user hook
+    picks the triple by the calling title, all hooks wait for each other before they raise).  One observation per
+    association, judged like any other refusal: each peer is told exactly what was said to IT."""
+    import threading
+    n = len(triples)
+    barrier = threading.Barrier(n)
+    by_title = {'CL%d' % i: tuple(t) for i, t in enumerate(triples)}
+
+    class Refuser(Server):
+        def on_association_request(self, asce, assoc):
+            t = by_title[assoc.calling_ae_title.strip()]
+            try:
+                barrier.wait(5)
+            except threading.BrokenBarrierError:
+                pass
+            raise exceptions.AssociationRejectedError(*t)
+    srv = Refuser()
+    srv.add_scp(probe_service(srv))
+    out = [None] * n
+    with R.Net() as net:
+        net.register(ADDR, srv)
+
+        def one(i):
+            cl = ae_mod.ClientAE('CL%d' % i, max_pdu_length=4096).add_scu(sc.verification_scu)
+            cl.timeout = 8
+            obs = {'scn': 'refuse', 'given': list(triples[i]), 'reqErr': {'type': 'none', 'f': []}, 'entered': False,
+                   'accErr': {'type': 'none', 'f': []}, 'services': []}
+            try:
+                with cl.request_association(REMOTE) as assoc:
+                    obs['entered'] = True
+            except exceptions.AssociationRejectedError as e:
+                obs['reqErr'] = {'type': 'AssociationRejectedError', 'f': [e.result, e.source, e.diagnostic]}
+            except exceptions.AssociationAbortedError as e:
+                obs['reqErr'] = {'type': 'AssociationAbortedError', 'f': [e.source, e.reason_diag]}
+            except Exception as e:          # noqa
+                obs['reqErr'] = {'type': type(e).__name__, 'f': []}
+            obs['thread'] = threading.current_thread()
+            out[i] = obs
+        ths = [threading.Thread(target=one, args=(i,), daemon=True) for i in range(n)]
+        for t in ths:
+            t.start()
+        for t in ths:
+            t.join(40)
+        ok = net.wait_all(20)
+        for obs in out:
+            if obs is None:
+                raise Machinery('a requesting thread of the concurrent refusals did not finish')
+            th = obs.pop('thread')
+            # the connection this peer's provider opened: its first PDU carries the calling title
+            mine = [l for l in net.links if any(d['k'] == 'RQ' and bytes(d.get('calling', b'')).strip(b'\0 ') == b'CL%d' % out.index(obs) for d in R.pdus_of(l['log'], 'R'))]
+            link = mine[0] if mine else {'log': []}
+            obs['r2a'] = wire(link, 'R')
+            obs['a2r'] = wire(link, 'A')
+            obs['services'] = []
+            obs['handler_finished'] = bool(ok)
+    return out
+
+
 def raw_abort_scenario(given, where, rng):
     """The accepting side is a scripted raw peer (reference encoder): it accepts, and answers the C-ECHO request with
     `where` = 'partial-command' (a non-final command fragment) / 'command-announcing-data' / 'instead-of-response',
@@ -382,6 +441,19 @@ def main(tier='quick'):
         if not obs.pop('handler_finished'):
             v.report({'site': 'asceprovider.handle', 'clause': 'handler-never-finished', 'scn': scn},
                      'the accepting handler thread did not finish within 20 s in scenario %s %s %s' % (scn, given, pl), replay={'scn': scn, 'given': list(given), 'placement': pl})
+    # several peers refused at the same moment by one entity, each for its own reason
+    for rep in range(3 if tier == 'quick' else 20):
+        ts = rng.sample(std, 4) + [(rng.randint(0, 255), rng.randint(0, 255), rng.randint(0, 255))]
+        try:
+            many = concurrent_refusals(ts, rng)
+        except Machinery:
+            raise
+        except Exception as exc:      # noqa
+            raise Machinery('concurrent refusals failed in the harness: %s: %s' % (type(exc).__name__, exc))
+        for obs in many:
+            obs['placement'] = 'concurrent with %d other refusals' % (len(ts) - 1)
+            obs.pop('handler_finished')
+            cases.append(obs)
     res, stats = tlc.validate_traces('Trace_AssocLifecycle', 'Trace_AssocLifecycle.cfg', [[c] for c in cases], chunk=5000)
     for c, r in zip(cases, res):
         if r['reached'] != 1:
